@@ -89,3 +89,14 @@ class LoadOp(Operation):
     @property
     def dereferenced_value(self):
         return self.results[0]
+
+
+class InlineAsmOp(Operation):
+    """inline assembly: recorded verbatim.  A "csrw $0, $1" op is the EVENT write(den(operand0), operand1);
+    "csrr $0, $1" reads the CSR den(operand0) into its result."""
+
+    def __init__(self, asm_string, constraints, operands=(), res_types=(), asm_dialect=0, has_side_effects=False, is_align_stack=False):
+        self.asm_string = asm_string
+        self.constraints = constraints
+        self.has_side_effects = has_side_effects
+        self._init_op(operands, [None for _ in res_types], list(res_types))
